@@ -100,6 +100,28 @@ def main(tier, seed):
         decl += " };"
         gen_defs.append(decl)
         units.append({"name": name, "cxx": name, "mag": frac_to_mag(s), "origin": org})
+    # directed families: point units of ONE scale whose distinct origins are written with the SAME number in different units
+    # (5 x K/3 against 5 x K/11), and with different numbers whose order is opposite to the order of the origins themselves
+    # (5 x K/11 < 4 x K/3): the library has to order origins as quantities, not as bare numbers
+    fam_lists = []
+    for k in range(4 if tier == "quick" else 16):
+        sc = rand_frac(rng)
+        ouA, ouB = rand_frac(rng, 60), rand_frac(rng, 60)
+        while ouB == ouA:
+            ouB = rand_frac(rng, 60)
+        if ouA < ouB:
+            ouA, ouB = ouB, ouA                       # ouA is the larger origin unit
+        cnt = rng.choice([1, -1]) * rng.randrange(1, 5000)
+        cnt2 = cnt + (1 if cnt > 0 else -1)             # |cnt2| > |cnt| yet cnt2 x ouB may lie on the other side of cnt x ouA
+        fam = []
+        for tag, (c, ou) in (("a", (cnt, ouA)), ("b", (cnt, ouB)), ("c", (cnt2, ouB))):
+            name = f"PD{k}{tag}"
+            gen_defs.append(f"using OUD{k}{tag} = decltype(au::Kelvins{{}} * (au::mag<{ou.numerator}>() / au::mag<{ou.denominator}>()));")
+            gen_defs.append(f"struct {name} : decltype(au::Kelvins{{}} * (au::mag<{sc.numerator}>() / au::mag<{sc.denominator}>())) {{"
+                            f" static constexpr auto origin() {{ return au::make_quantity<OUD{k}{tag}>({c}LL); }} }};")
+            fam.append(len(units))
+            units.append({"name": name, "cxx": name, "mag": frac_to_mag(sc), "origin": (c, frac_to_mag(ou))})
+        fam_lists += [[fam[0], fam[1]], [fam[0], fam[2]], [fam[1], fam[2], fam[0]]]
     # anonymous COMPOUND point units of the temperature dimension (UnitProducts; origin ZERO): distinct types of identical
     # dimension, magnitude and origin that the library orders by its last tiebreaker, plus ones of other magnitudes
     comp = [("KkMpKm", "decltype(au::Kilo<au::Kelvins>{} * au::Meters{} / au::Kilo<au::Meters>{})", {}),
@@ -119,6 +141,9 @@ def main(tier, seed):
     for (a, b) in ((0, 1), (1, 2), (0, 2), (0, 3)):
         lists.append([comp_ids[a], comp_ids[b]])
         lists.append([comp_ids[b], rng.choice(named_ids), comp_ids[a]])
+    for fl in fam_lists:
+        lists.append(fl)
+        lists.append(fl + [rng.choice(named_ids[:len(lib)])])
     for _ in range(nlists):
         n = rng.choice([2, 2, 3, 3])
         ids = rng.sample(named_ids, n)
@@ -156,6 +181,10 @@ def main(tier, seed):
     results = {}
     stats = {"lists": len(lists), "units": len(units), "configs": [], "with_origin": sum(1 for u in units if u["origin"]),
              "is_input_lists": 0, "compile_failures": 0}
+    def unit_tok(u):
+        if u["origin"] is None:
+            return f"{aulib.pack_str(u['mag'], 'mag')}|0|none"
+        return f"{aulib.pack_str(u['mag'], 'mag')}|{u['origin'][0]}|{aulib.pack_str(u['origin'][1], 'mag')}"
     for ci, (compiler, std) in enumerate(configs):
         cfg = f"{compiler} -std={std}"
         stats["configs"].append(cfg)
@@ -177,18 +206,33 @@ def main(tier, seed):
         for ids, rc, out, o in pmap(build, range(nchunks)):
             if rc != 0:
                 stats["compile_failures"] += 1
-                violations.append({"what": f"common-point-unit harness chunk does not compile under {cfg}", "class": "build", "no_input": True,
-                                   "broken": "harness: CommonPointUnitT on generated units", "rec": {"kind": "build", "out": out[-2500:]}})
+                # which list is it?  compile each block of the chunk on its own
+                culprit = None
+                for i in ids:
+                    p1 = os.path.join(wd, f"one{ci}_{i}.cc")
+                    with open(p1, "w") as f:
+                        f.write(PRELUDE % os.path.join(aulib.HARNESS_INC, "serialize.hh"))
+                        f.write("\n".join(gen_defs) + "\nint main() {\n" + blocks[i] + "\n  return 0;\n}\n")
+                    rc1, out1 = cxx(p1, None, compiler=compiler, std=std, san=False, syntax_only=True)
+                    if rc1 != 0:
+                        culprit = (i, out1)
+                        break
+                if culprit:
+                    i, out1 = culprit
+                    names = [units[j]["name"] for j in lists[i]]
+                    violations.append({"what": f"CommonPointUnitT<{', '.join(names)}> (in some order) is a hard error under {cfg}: the common point unit "
+                                               "of these same-dimension units does not exist", "class": "no-common-point-unit",
+                                       "rec": {"kind": "hard-error", "units": [unit_tok(units[j]) for j in lists[i]], "names": names, "config": cfg,
+                                               "errors": [l for l in out1.split("\n") if "error" in l][:3]}})
+                else:
+                    violations.append({"what": f"common-point-unit harness chunk does not compile under {cfg}", "class": "build", "no_input": True,
+                                       "broken": "harness: CommonPointUnitT on generated units", "rec": {"kind": "build", "out": out[-2500:]}})
                 continue
             for line in o.split("\n"):
                 if line.startswith("L "):
                     results.setdefault(int(line.split()[1]), {})[cfg] = kv(line)
     drv = Driver()
 
-    def unit_tok(u):
-        if u["origin"] is None:
-            return f"{aulib.pack_str(u['mag'], 'mag')}|0|none"
-        return f"{aulib.pack_str(u['mag'], 'mag')}|{u['origin'][0]}|{aulib.pack_str(u['origin'][1], 'mag')}"
     ans = drv.ask(["commonpoint " + " ; ".join(unit_tok(units[i]) for i in ids) for ids in lists])
     # Which of several *equal* minimal origins (e.g. ZERO and a declared origin of 0 counts) becomes the common origin depends on
     # the library's unit order (the fold runs over the sorted list); the model is therefore asked in every input order and the
